@@ -1067,4 +1067,168 @@ theorem glif_not_reserved {U : Char → Bool} (hU : ∀ c, isAU c = true → U c
         rw [List.map_append, List.map_cons, List.map_cons, List.map_nil, penult_two, hd1.2.1, hd1.2.2] at hp
         cases hp
 
+/-! ## the exact guard for the layer prefix -/
+
+theorem takeBytes_cons (n : Nat) (c : Char) (cs : Str) :
+    takeBytes n (c :: cs) = if c.utf8Size ≤ n then c :: takeBytes (n - c.utf8Size) cs else [] := by
+  rw [takeBytes]
+
+theorem takeBytes_append_prefix {n : Nat} (p e : Str) (h : usize p ≤ n) :
+    takeBytes n (p ++ e) = p ++ takeBytes (n - usize p) e := by
+  induction p generalizing n with
+  | nil => simp
+  | cons c p ih =>
+    simp only [usize_cons] at h
+    simp only [List.cons_append, usize_cons]
+    rw [takeBytes_cons, if_pos (by omega), ih (by omega)]
+    have : n - c.utf8Size - usize p = n - (c.utf8Size + usize p) := by omega
+    rw [this]
+
+theorem stage2_layer (U : Char → Bool) (name : Str) :
+    stage2 U name layerPrefix [] = layerPrefix ++ takeBytes 248 (escape U false name) := by
+  have h7 : usize layerPrefix = 7 := by decide
+  unfold stage2
+  rw [stage1_layer]
+  split
+  · rw [takeBytes_append_prefix _ _ (by simp only [maxLen, usize_nil, h7]; omega)]
+    simp only [maxLen, usize_nil, h7]
+  · rename_i hc
+    rw [takeBytes_of_le]
+    simp only [maxLen, usize_nil, usize_append, h7] at hc; omega
+
+theorem illegal_ascii : ∀ c ∈ illegal, c.utf8Size = 1 := by decide
+theorem dotsp_not_illegal {c : Char} (h : isDotSp c = true) : c ∉ illegal := by
+  simp only [isDotSp, Bool.or_eq_true, beq_iff_eq] at h
+  rcases h with h | h <;> subst h <;> decide
+
+theorem escChar_dotsp {U : Char → Bool} (hU : U '.' = false ∧ U ' ' = false) {c : Char}
+    (h : isDotSp c = true) : escChar U false c = [c] := by
+  have hUc : U c = false := by
+    simp only [isDotSp, Bool.or_eq_true, beq_iff_eq] at h
+    rcases h with h | h <;> subst h
+    · exact hU.1
+    · exact hU.2
+  unfold escChar
+  rw [if_neg (by simp), if_neg (dotsp_not_illegal h), if_neg (by simp [hUc])]
+
+theorem escChar_nodotsp_head (U : Char → Bool) {c : Char} (hc : isDotSp c = false) :
+    ∃ x t, escChar U false c = x :: t ∧ isDotSp x = false ∧ x.utf8Size = c.utf8Size := by
+  unfold escChar
+  rw [if_neg (by simp)]
+  split
+  · rename_i hi
+    exact ⟨'_', [], rfl, by decide, by rw [illegal_ascii c hi]; rfl⟩
+  · split
+    · exact ⟨c, ['_'], rfl, hc, rfl⟩
+    · exact ⟨c, [], rfl, hc, rfl⟩
+
+/-- whether the clipped escaped name is all periods/spaces can be read off the name itself -/
+theorem takeBytes_escape_all {U : Char → Bool} (hU : U '.' = false ∧ U ' ' = false) (name : Str) (n : Nat) :
+    (takeBytes n (escape U false name)).all isDotSp = (takeBytes n name).all isDotSp := by
+  induction name generalizing n with
+  | nil => rfl
+  | cons c cs ih =>
+    unfold escape
+    cases hc : isDotSp c with
+    | true =>
+      rw [escChar_dotsp hU hc]
+      simp only [List.cons_append, List.nil_append]
+      unfold takeBytes
+      split
+      · simp only [List.all_cons, ih]
+      · rfl
+    | false =>
+      obtain ⟨x, t, he, hx, hsz⟩ := escChar_nodotsp_head U hc
+      rw [he]
+      simp only [List.cons_append]
+      unfold takeBytes
+      rw [hsz]
+      split
+      · simp [hx, hc]
+      · rfl
+
+theorem fixTrailing_append_dotsp {a d : Str} (hd : ∀ c ∈ d, isDotSp c = true)
+    (ha : ∀ x, a.getLast? = some x → isDotSp x = false) :
+    fixTrailing (a ++ d) = a ++ List.replicate d.length '_' := by
+  unfold fixTrailing
+  have h1 : (a ++ d).reverse.takeWhile isDotSp = d.reverse := by
+    rw [List.reverse_append, List.takeWhile_append_of_pos (fun c hc => hd c (List.mem_reverse.1 hc))]
+    have : a.reverse.takeWhile isDotSp = [] := by
+      cases h : a.reverse with
+      | nil => rfl
+      | cons y ys =>
+        have : a.getLast? = some y := by rw [← List.head?_reverse, h]; rfl
+        rw [List.takeWhile_cons, ha y this]; rfl
+    rw [this, List.append_nil]
+  simp only [h1, List.length_reverse, List.length_append]
+  congr 1
+  rw [Nat.add_sub_cancel]
+  exact List.take_left' rfl
+
+def glyphsUS : Str := ['g', 'l', 'y', 'p', 'h', 's', '_']
+
+/-- a 7-byte ASCII prefix of the body is a prefix of every candidate -/
+theorem candidate_keeps7 {U : Char → Bool} {name : Str} {q : Str} (hq : usize q = 7)
+    (hb : q <+: body U name layerPrefix []) (k : Nat) : q <+: candidate U name layerPrefix [] k := by
+  by_cases hk : k = 0
+  · subst hk; rw [candidate_zero]; exact hb.trans (List.prefix_append _ _)
+  · rw [candidate_pos _ _ _ _ (by omega)]
+    have h4 : q <+: counterBase U name layerPrefix [] := by
+      unfold counterBase; simp only; split
+      · exact takeBytes_keeps_prefix hb (by simp only [maxLen, numberLen, usize_nil, hq]; omega)
+      · exact hb
+    rw [List.append_assoc]
+    exact h4.trans (List.prefix_append _ _)
+
+theorem body_layer_cases {U : Char → Bool} (name : Str) :
+    ((takeBytes 248 (escape U false name)).all isDotSp = true → glyphsUS <+: body U name layerPrefix []) ∧
+    ((takeBytes 248 (escape U false name)).all isDotSp = false → layerPrefix <+: body U name layerPrefix []) := by
+  rw [body_eq]
+  simp only [List.isEmpty_nil, if_true]
+  rw [stage2_layer]
+  constructor
+  · intro hall
+    have hd : ∀ c ∈ '.' :: takeBytes 248 (escape U false name), isDotSp c = true := by
+      intro c hc
+      rcases List.mem_cons.1 hc with h | h
+      · subst h; rfl
+      · exact List.all_eq_true.1 hall c h
+    have : layerPrefix ++ takeBytes 248 (escape U false name) =
+        ['g', 'l', 'y', 'p', 'h', 's'] ++ ('.' :: takeBytes 248 (escape U false name)) := rfl
+    rw [this, fixTrailing_append_dotsp hd (by intro x hx; simp at hx; subst hx; rfl)]
+    exact ⟨List.replicate (takeBytes 248 (escape U false name)).length '_', by
+      simp [glyphsUS, List.replicate_succ]⟩
+  · intro hall
+    have : ∃ g ∈ takeBytes 248 (escape U false name), isDotSp g = false := by
+      rcases List.all_eq_false.1 hall with ⟨g, hg, hg'⟩
+      exact ⟨g, hg, by simpa using hg'⟩
+    obtain ⟨g, hg, hg'⟩ := this
+    obtain ⟨a, t, hat⟩ := List.append_of_mem hg
+    have hp : (layerPrefix ++ a) ++ [g] <+: layerPrefix ++ takeBytes 248 (escape U false name) := by
+      rw [hat]; exact ⟨t, by simp⟩
+    have := fixTrailing_keeps_prefix hp hg'
+    rw [List.append_assoc] at this
+    exact (List.prefix_append _ _).trans this
+
+theorem not_both_prefixes {l : Str} (h1 : glyphsUS <+: l) (h2 : layerPrefix <+: l) : False := by
+  have := List.prefix_of_prefix_length_le h1 h2 (by decide)
+  have hl : glyphsUS.length = layerPrefix.length := by decide
+  have := List.IsPrefix.eq_of_length this hl
+  revert this; decide
+
+/-- **exact**: the directory of a layer keeps `glyphs.` iff the longest character prefix of the name
+    within 248 bytes contains something else than periods and spaces -/
+theorem layer_prefix_iff {U : Char → Bool} (hU : U '.' = false ∧ U ' ' = false) (name : Str) (k : Nat) :
+    layerPrefix <+: candidate U name layerPrefix [] k ↔ (takeBytes 248 name).all isDotSp = false := by
+  rw [← takeBytes_escape_all hU]
+  have hc := body_layer_cases (U := U) name
+  cases hall : (takeBytes 248 (escape U false name)).all isDotSp with
+  | true =>
+    have h1 := candidate_keeps7 (by decide) (hc.1 hall) k
+    constructor
+    · intro h2; exact (not_both_prefixes h1 h2).elim
+    · intro h; cases h
+  | false =>
+    exact ⟨fun _ => rfl, fun _ => candidate_keeps7 (by decide) (hc.2 hall) k⟩
+
 end C07
